@@ -4,6 +4,7 @@ package main
 // Injected into cmd/glyph at check time; never committed to /repo.
 
 import (
+	"context"
 	"fmt"
 	"net/http"
 	"net/http/httptest"
@@ -22,6 +23,8 @@ func TestSim(t *testing.T) {
 }
 
 const c11Marker = "body-ran-7f3a"
+
+type c11hangKey struct{}
 
 type c11rec struct {
 	client  int
@@ -75,7 +78,7 @@ var c11units = []struct {
 
 func c11build(s *sim.Sim, p *sim.Params) (*c11sys, func() *c11sys) {
 	y := &c11sys{}
-	y.n = []int{1, 2, 3, 5, 10, 30, 60, 200}[s.Choose(sim.SWork, 8)]
+	y.n = []int{1, 2, 3, 5, 10, 30, 60, 200, 90, 119, 2000}[s.Choose(sim.SWork, 11)]
 	y.direct = s.Choose(sim.SWork, 10) < 3
 	if p.Knob("direct", -1) >= 0 {
 		y.direct = p.Knob("direct", 0) == 1
@@ -102,6 +105,11 @@ func c11build(s *sim.Sim, p *sim.Params) (*c11sys, func() *c11sys) {
 			}
 			server.SetTrustedProxies(list)
 			body := func(ctx *server.Context) error {
+				// a client that hangs up while its request is being served: the request's context
+				// ends after it was admitted, before the handler returns
+				if hang, ok := ctx.Request.Context().Value(c11hangKey{}).(context.CancelFunc); ok {
+					hang()
+				}
 				return server.SendJSON(ctx, http.StatusOK, map[string]interface{}{"marker": c11Marker})
 			}
 			lcfg := server.RateLimiterConfig{RequestsPerMinute: y.n, BurstSize: y.n, TrustProxy: y.trust}
@@ -114,6 +122,12 @@ func c11build(s *sim.Sim, p *sim.Params) (*c11sys, func() *c11sys) {
 				}
 				req := httptest.NewRequest("GET", "/limited", nil)
 				req.RemoteAddr = remote
+				for _, kv := range hdr {
+					if kv[0] == "X-Sim-Hangup" {
+						cctx, cancel := context.WithCancel(req.Context())
+						req = req.WithContext(context.WithValue(cctx, c11hangKey{}, cancel))
+					}
+				}
 				for _, kv := range hdr {
 					req.Header.Add(kv[0], kv[1])
 				}
@@ -320,6 +334,7 @@ func c11Run(s *sim.Sim, p *sim.Params) {
 		conform bool
 		k       int
 		twoRoutes bool
+		hangsUp   bool
 	}
 	plans := make([]clientPlan, nclients)
 	v6 := s.Choose(sim.SWork, 4) == 0 // IPv6 peers whose addresses share their leading groups
@@ -333,6 +348,7 @@ func c11Run(s *sim.Sim, p *sim.Params) {
 		}
 		plans[i].forge = s.Choose(sim.SWork, 4)
 		plans[i].twoRoutes = s.Choose(sim.SWork, 3) == 0
+		plans[i].hangsUp = s.Choose(sim.SWork, 4) == 0
 		plans[i].conform = s.Choose(sim.SWork, 3) == 0
 		plans[i].plan = c11plan(s, y0, plans[i].conform, budget/nclients+1)
 	}
@@ -351,6 +367,10 @@ func c11Run(s *sim.Sim, p *sim.Params) {
 			hdr = append(hdr, [2]string{"X-Forwarded-For", fmt.Sprintf("192.168.7.%d", ci+1)})
 		case 3:
 			hdr = append(hdr, [2]string{"X-Real-IP", fmt.Sprintf("192.168.8.%d", ci*3+k%3)})
+		}
+		if pl.hangsUp && y.direct && k%2 == 0 {
+			hdr = append(hdr, [2]string{"X-Sim-Hangup", "1"})
+			s.Fault("client-hangs-up-mid-request")
 		}
 		at := s.Now()
 		// a third of a client's requests go to the second route, which declares the same limit:
@@ -394,7 +414,7 @@ func c11Run(s *sim.Sim, p *sim.Params) {
 		for k := 0; k < 10050; k++ {
 			st, _ := y.do(fmt.Sprintf("10.%d.%d.%d:5000", 100+(k>>16), (k>>8)&255, k&255), nil, false)
 			if st != 200 {
-				s.Fail("oracle", "false-rejection:unit="+y.unit, fmt.Sprintf("the first request ever of client #%d (of many one-shot clients) was answered %d", k, st))
+				s.Fail("oracle", "false-rejection:unit="+y.unit+":first-request", fmt.Sprintf("the first request ever of client #%d (of many one-shot clients) was answered %d", k, st))
 			}
 		}
 	}
@@ -406,11 +426,15 @@ func c11Run(s *sim.Sim, p *sim.Params) {
 		for i := range plans {
 			if s.Choose(sim.SWork, 2) == 0 {
 				tok := y0.window / time.Duration(y0.n)
+				burst := 2*y0.n + 1
+				if burst > 301 {
+					burst = 301 // (enough to drain any bucket the workload's time span can refill)
+				}
 				plans[i].conform = false
 				plans[i].plan = []c11arrival{
-					{count: 2*y0.n + 1},
-					{gap: tok * time.Duration(2+s.Choose(sim.SWork, 3)), count: 2*y0.n + 1, par: s.Choose(sim.SWork, 2) == 0},
-					{gap: tok + tok/2, count: y0.n + 1},
+					{count: burst},
+					{gap: tok * time.Duration(2+s.Choose(sim.SWork, 3)), count: burst, par: s.Choose(sim.SWork, 2) == 0},
+					{gap: tok + tok/2, count: burst / 2},
 				}
 			}
 		}
@@ -419,6 +443,24 @@ func c11Run(s *sim.Sim, p *sim.Params) {
 	var hs []*sim.Handle
 	for i := range plans {
 		hs = append(hs, s.Spawn(fmt.Sprintf("client#%d", i), runClient(y, i, &plans[i], &recs)))
+	}
+	if y.direct && y.trust && len(y.trusted) > 0 && s.Choose(sim.SWork, 2) == 0 {
+		// an operator's config watcher re-sends the (unchanged) trusted-proxy list every now and
+		// then while requests are being served
+		s.Probe("proxy-list-resent-during-requests")
+		var list []string
+		for k := range y.trusted {
+			list = append(list, k)
+		}
+		sort.Strings(list)
+		stop := false
+		defer func() { stop = true }()
+		s.Spawn("proxy-resync", func() {
+			for i := 0; i < 400 && !stop; i++ {
+				server.SetTrustedProxies(list)
+				s.Sleep(y.window / 50)
+			}
+		})
 	}
 	s.Wait(hs...)
 	c11check(s, y, recs, &sample)
@@ -557,7 +599,11 @@ func c11check(s *sim.Sim, y *c11sys, recs []c11rec, sample *[]string) {
 						break
 					}
 				}
-				s.Fail("oracle", "false-rejection:unit="+y.unit, fmt.Sprintf("client %s never sent more than %d requests in any trailing %v yet was rejected at %v (limit %d/%s, %d requests)", id, y.n, y.window, at, y.n, y.unit, len(rs)))
+				site := "false-rejection:unit=" + y.unit
+				if c11withinKnown(y, rs) {
+					site += ":beyond-known-conversion"
+				}
+				s.Fail("oracle", site, fmt.Sprintf("client %s never sent more than %d requests in any trailing %v yet was rejected at %v (limit %d/%s, %d requests)", id, y.n, y.window, at, y.n, y.unit, len(rs)))
 			}
 		}
 	}
@@ -588,4 +634,33 @@ func c11beyondKnown(y *c11sys, adm []time.Duration) bool {
 		}
 	}
 	return false
+}
+
+// c11withinKnown: for the units sec/hour/day, the client also never sent more than b requests in
+// any trailing minute, b being the per-minute budget of the listed known conversion — so even the
+// bucket that finding describes admits every one of its requests, and a rejection is something else.
+func c11withinKnown(y *c11sys, rs []c11rec) bool {
+	var b int
+	switch y.unit {
+	case "sec":
+		b = 60 * y.n
+	case "hour":
+		b = (y.n + 59) / 60
+	case "day":
+		b = (y.n + 1439) / 1440
+	default:
+		return false
+	}
+	for i, r := range rs {
+		cnt := 0
+		for j := i; j >= 0; j-- {
+			if rs[j].at > r.at-time.Minute-time.Millisecond/2 {
+				cnt++
+			}
+		}
+		if cnt > b {
+			return false
+		}
+	}
+	return true
 }
